@@ -91,6 +91,8 @@ def run_impl(case):
     dims = fl_dims_t(ds)
     vals = np.array([float(Fraction(v)) for v in case["values"]]).reshape(dims.shape)
     if case["kind"] in ("export", "direct"):
+        if case["index"] and vals.ndim >= 2:
+            vals = np.asfortranarray(vals)      # memory layout must not matter
         a = fd.FlodymArray(dims=dims, values=vals)
         try:
             df = a.to_df(index=case["index"], dim_to_columns=case["dim_to_columns"], sparse=case["sparse"])
